@@ -34,11 +34,29 @@ def log(*a):
     print(*a, flush=True)
 
 
-def run(cmd, cwd=None, timeout=None, env=None):
+def run(cmd, cwd=None, timeout=None, env=None, logfile=None):
     """Run a command in its own process group; on timeout the whole group (cargo, kani-driver,
-    cbmc, solvers) is killed."""
+    cbmc, solvers) is killed.  With `logfile` the output is streamed there (readable while the
+    command runs)."""
     import signal
     t0 = time.time()
+    if logfile:
+        fh = open(logfile, "w")
+        p = subprocess.Popen(cmd, cwd=cwd, env=env or ENV, stdout=fh, stderr=subprocess.STDOUT,
+                             start_new_session=True)
+        try:
+            p.wait(timeout=timeout)
+            rc, extra = p.returncode, ""
+        except subprocess.TimeoutExpired:
+            try:
+                os.killpg(p.pid, signal.SIGKILL)
+            except ProcessLookupError:
+                pass
+            p.wait()
+            rc, extra = -9, "\n<<TIMEOUT>>"
+        fh.close()
+        out = open(logfile, errors="replace").read() + extra
+        return rc, out, time.time() - t0
     p = subprocess.Popen(cmd, cwd=cwd, env=env or ENV, stdout=subprocess.PIPE, stderr=subprocess.STDOUT,
                          text=True, errors="replace", start_new_session=True)
     try:
@@ -114,6 +132,8 @@ def inject(ws, pid, cfg, tier):
             f.write('#[cfg(all(test, verif_playback))] #[path = "%s/pb_%s.rs"] mod pb;\n' % (ws, crate.replace("-", "_")))
         lib = os.path.join(ws, crate, "src", "lib.rs")
         with open(lib, "a") as f:
+            if crate == "scpi":
+                f.write('\n#[cfg(kani)] extern crate self as scpi;')
             f.write('\n#[cfg(kani)] #[path = "%s"] pub mod verif_contracts;\n' % modfile)
     inj_path = os.path.join(KDIR, "inject.json")
     wanted = set()
@@ -219,6 +239,7 @@ def kani_cmd(group, harnesses, jobs, extra=()):
         cmd += ["--features", group["features"]]
     if group.get("no_default_features"):
         cmd += ["--no-default-features"]
+    cmd += ["-Z", "unstable-options", "--harness-timeout", "%ds" % group.get("harness_timeout", 900)]
     for z in group.get("zflags", []):
         cmd += ["-Z", z]
     for a in group.get("kani_args", []):
@@ -233,10 +254,10 @@ def target_dir():
     return os.path.join(SCRATCH, "target")
 
 
-def run_kani_group(ws, group, harnesses, jobs, timeout):
+def run_kani_group(ws, group, harnesses, jobs, timeout, logfile=None):
     env = dict(ENV, CARGO_TARGET_DIR=target_dir())
     cmd = kani_cmd(group, harnesses, jobs, ["-j", str(jobs), "--output-format", "terse", "--exact"])
-    rc, out, wall = run(cmd, cwd=ws, timeout=timeout, env=env)
+    rc, out, wall = run(cmd, cwd=ws, timeout=timeout, env=env, logfile=logfile)
     return cmd, rc, out, wall
 
 
@@ -390,6 +411,7 @@ def main():
     ap.add_argument("--replay")
     ap.add_argument("--keep", action="store_true")
     ap.add_argument("--only")
+    ap.add_argument("--patch", help="development aid: apply this diff to the SCRATCH copy only (never to /repo)")
     ap.add_argument("--jobs", type=int, default=int(os.environ.get("VERIF_JOBS", "16")))
     args = ap.parse_args()
     pid = args.pid
@@ -409,6 +431,11 @@ def main():
         if args.replay:
             return do_replay(pid, cfg, args)
         ws = make_scratch(pid)
+        if args.patch:
+            rc, out, _ = run(["patch", "-p1", "-s", "-d", ws, "-i", os.path.abspath(args.patch)])
+            if rc != 0:
+                raise Undecided("patch does not apply: " + out[-300:])
+            log("NOTE: scratch copy patched with %s (evidence of this run is not about /repo)" % args.patch)
         injected = inject(ws, pid, cfg, tier)
         return do_check(pid, cfg, tier, seed, ws, injected, args, t0)
     except Undecided as e:
@@ -486,9 +513,8 @@ def do_check(pid, cfg, tier, seed, ws, injected, args, t0):
                 continue
             timeout = g.get("timeout", {}).get(tier, 1500 if tier == "quick" else 7200) \
                 if isinstance(g.get("timeout"), dict) else g.get("timeout", 1500 if tier == "quick" else 7200)
-            cmd, rc, out, wall = run_kani_group(ws, g, hs, args.jobs, timeout)
+            cmd, rc, out, wall = run_kani_group(ws, g, hs, args.jobs, timeout, os.path.join(workdir, g["name"] + ".log"))
             cmds.append(" ".join(cmd))
-            open(os.path.join(workdir, g["name"] + ".log"), "w").write(out)
             recs = parse_kani(out)
             rep = {"group": g["name"], "engine": "kani/cbmc", "bounded": bool(g.get("bounded")),
                    "bounds": g.get("bounds", "none (loop-free full-domain, or unrolled to a width fixed by the standard with unwinding assertions)"),
@@ -557,14 +583,12 @@ def do_check(pid, cfg, tier, seed, ws, injected, args, t0):
                 undecided.append("%s: verus rejected the extracted text (unsupported construct?): %s" %
                                  (g["name"], "; ".join(re.findall(r"error: [^\n]*", v["out"])[:4])))
             elif nerr > 0:
-                # one failure record per verus error message
-                errs = re.findall(r"error: ([^\n]*)\n\s*--> [^\n]*:(\d+):\d+[^\n]*\n(?:[^\n]*\n){0,6}", v["out"])
-                which = vextract.locate_errors(v["out"], v["file"]) if False else None
                 import vextract as _vx
-                for fn, msg in _vx.failed_functions(v["out"], open(v["file"]).read()):
-                    failures.append((g, {"harness": fn, "full": "verus::" + fn, "raw": v["out"][-3000:], "verus": True},
+                flist = _vx.failures_from_json(j, v["out"]) or _vx.failed_functions(v["out"], open(v["file"]).read())
+                for fn, msg in flist:
+                    failures.append((g, {"harness": fn.replace("::", "."), "full": "verus::" + fn, "raw": v["out"][-3000:], "verus": True},
                                      "%s/%s/%s" % (pid, fn, msg), v["file"]))
-                if not failures:
+                if not flist:
                     failures.append((g, {"harness": "verus", "full": "verus", "raw": v["out"][-3000:], "verus": True},
                                      "%s/verus/unlocated-error" % pid, v["file"]))
             elif nver < expect:
